@@ -81,42 +81,44 @@ Proof. exact generator_unbound_silent. Qed.
 Print Assumptions C03_generator_unbound_silent.
 
 (* FULL (limit over whole generator histories): in any stretch `mid` of a history, after any
-   prefix `pre`, that contains no UnbindRemoteStream of s and at every tick of which x is in the
-   missing list of s's own arrivals, x is requested at most maxNacksPerPacket times - with any
-   other streams, arrivals and re-binds interleaved *)
+   prefix `pre`, that contains no UnbindRemoteStream and no further BindRemoteStream of s (one
+   binding of s) and at every tick of which x is in the missing list of s's own arrivals, x is
+   requested at most maxNacksPerPacket times - with any other streams and arrivals interleaved *)
 Theorem C03_generator_nack_limit : forall c s, cfg_ok c -> forall pre mid x,
   0 < c_max c -> ops_u16 (pre ++ mid) ->
-  forallb (fun o => negb (is_unbind_of s o)) mid = true ->
+  forallb (fun o => negb (ends_binding_of s o)) mid = true ->
   (forall a, In a (skipn (n_ticks pre) (own_missing c s (pre ++ mid))) -> exists m, a = Some m /\ In x m) ->
   req_count x (skipn (n_ticks pre) (map (out_for s) (run c gen_init (pre ++ mid)))) <= c_max c.
 Proof. exact generator_nack_limit. Qed.
 Print Assumptions C03_generator_nack_limit.
 
-(* ... and exactly min(limit, number of ticks) times when s is not bound at the end of `pre`
-   (the stretch then starts with the bind of s; x is missing at every tick since) *)
+(* ... and exactly min(limit, number of ticks) times over the stretch that follows a
+   BindRemoteStream of s (x is missing at every tick since the bind), whatever happened before *)
 Theorem C03_generator_nack_limit_exact_fresh : forall c s, cfg_ok c -> forall pre mid x,
-  0 < c_max c -> ops_u16 (pre ++ mid) ->
-  forallb (fun o => negb (is_unbind_of s o)) mid = true ->
-  arr_after s None pre = None ->
-  (forall a, In a (skipn (n_ticks pre) (own_missing c s (pre ++ mid))) -> exists m, a = Some m /\ In x m) ->
-  req_count x (skipn (n_ticks pre) (map (out_for s) (run c gen_init (pre ++ mid)))) =
+  0 < c_max c -> ops_u16 (pre ++ Bind s true :: mid) ->
+  forallb (fun o => negb (ends_binding_of s o)) mid = true ->
+  (forall a, In a (skipn (n_ticks pre) (own_missing c s (pre ++ Bind s true :: mid))) ->
+     exists m, a = Some m /\ In x m) ->
+  req_count x (skipn (n_ticks pre) (map (out_for s) (run c gen_init (pre ++ Bind s true :: mid)))) =
   Z.min (Z.of_nat (n_ticks mid)) (c_max c).
 Proof. exact generator_nack_limit_exact_fresh. Qed.
 Print Assumptions C03_generator_nack_limit_exact_fresh.
 
-(* non-vacuity of the two limit theorems: limit 2, 12 stays missing over four ticks of stream 7
-   while stream 9 and further arrivals of 7 are interleaved *)
+(* non-vacuity of the two limit theorems: limit 2; stream 7 is bound twice without an unbind
+   (12 was requested for the replaced binding); under the second binding 12 stays missing over
+   four ticks while stream 9 and further arrivals of 7 are interleaved *)
 Example C03_generator_nack_limit_nonvacuous :
   let c := mk_cfg 64 0 2 in
-  let pre := [Bind 9 true; Arrive 9 5 true; Arrive 9 7 true; Tick] in
-  let mid := [Bind 7 true; Arrive 7 10 true; Arrive 7 13 true; Tick; Arrive 9 9 true; Tick;
+  let pre := [Bind 9 true; Arrive 9 5 true; Arrive 9 7 true; Bind 7 true; Arrive 7 10 true;
+              Arrive 7 13 true; Tick] in
+  let mid := [Arrive 7 10 true; Arrive 7 13 true; Tick; Arrive 9 9 true; Tick;
               Arrive 7 11 true; Tick; Arrive 7 20 true; Tick] in
-  arr_after 7 None pre = None /\
-  forallb (fun o => negb (is_unbind_of 7 o)) mid = true /\
-  (forall a, In a (skipn (n_ticks pre) (own_missing c 7 (pre ++ mid))) -> exists m, a = Some m /\ In 12 m) /\
-  req_count 12 (skipn (n_ticks pre) (map (out_for 7) (run c gen_init (pre ++ mid)))) = 2.
+  forallb (fun o => negb (ends_binding_of 7 o)) mid = true /\
+  (forall a, In a (skipn (n_ticks pre) (own_missing c 7 (pre ++ Bind 7 true :: mid))) ->
+     exists m, a = Some m /\ In 12 m) /\
+  req_count 12 (skipn (n_ticks pre) (map (out_for 7) (run c gen_init (pre ++ Bind 7 true :: mid)))) = 2.
 Proof.
-  cbv zeta. split; [reflexivity|]. split; [reflexivity|]. split; [|vm_compute; reflexivity].
+  cbv zeta. split; [reflexivity|]. split; [|vm_compute; reflexivity].
   intros a Ha. vm_compute in Ha.
   repeat (destruct Ha as [<-|Ha]; [eexists; split; [reflexivity|cbn; tauto]|]). destruct Ha.
 Qed.
